@@ -612,6 +612,43 @@ class Gen:
         rhs = ['vsum', True, self.sec_ref({a}, [cnt], [st], allow2d=False), ['vs', r.choice([var('k'), var('n'), lit(2)])]]
         return [loop, lhs + [rhs]] if r.random() < 0.7 else [lhs + [rhs], loop]
 
+    def reuse2d(self):
+        """two sibling DO loops that re-use ONE loop variable (l) with DIFFERENT bounds, and a 2-D section assignment whose two
+        ranges are exactly those loop ranges (explicit, or ':'/bare name with loops over the declared bounds).  Loki maps the
+        first range to l and must synthesize a fresh variable for the second (the guard in _map_ranges_to_indices is on the
+        VARIABLE, not on the range).  Variant: two different loop variables (l and k)."""
+        r = self.rng
+        a, b = r.choice([('c', 'd'), ('d', 'c')])
+        dims = self.arr[a]
+        whole = r.random() < 0.35 and all(l >= 0 for l, _ in dims)
+        if whole:
+            rs = [['r', lit(l), lit(h), None] for l, h in dims]
+            form = r.choice(['colon', 'bare'])
+            lhs_idx = [['r', None, None, None]] * 2 if form == 'colon' else []
+            c = r.random()
+            bidx = ([['r', None, None, None]] * 2 if r.random() < 0.5 else [])
+            rhs = ['vs', r.choice([var('n'), lit(r.randint(0, 4))])] if c < 0.4 else ['vsum', True, ['vref', b, bidx], ['vs', r.choice([var('n'), lit(2)])]]
+            cs, ss = None, None
+        else:
+            while True:
+                cs = [r.randint(2, 4), r.randint(2, 4)]; ss = [r.choice([1, 1, 2]), r.choice([1, 1, 2])]
+                cs = [min(c_, (h - l) // s_ + 1) for c_, s_, (l, h) in zip(cs, ss, dims)]
+                rs = [self.rng_idx(l, h, c_, s_) for (l, h), c_, s_ in zip(dims, cs, ss)]
+                if json.dumps(rs[0]) != json.dumps(rs[1]) and all(x[1][1] >= 0 for x in rs): break
+            lhs_idx = copy.deepcopy(rs)
+            ref = self.sec_ref({a}, cs, ss, allow2d=False)
+            rhs = ['vsum', True, ref, ['vs', r.choice([var('n'), lit(2)])]] if r.random() < 0.7 else ['vprod', True, ref, ['vs', lit(2)]]
+        two_vars = r.random() < 0.25
+        v1, v2 = ('l', 'k') if two_vars else ('l', 'l')
+        inc = ['plain', ['assign', 'm', ['sum', False, var('m'), lit(1)]]]
+        loops = [['vdo', v1, rs[0][1], rs[0][2], rs[0][3], [copy.deepcopy(inc)]], ['vdo', v2, rs[1][1], rs[1][2], rs[1][3], [copy.deepcopy(inc)]]]
+        if r.random() < 0.3: loops.reverse()
+        st = ['vassign', a, lhs_idx, rhs]
+        c = r.random()
+        if c < 0.6: return loops + [st]
+        if c < 0.8: return [st] + loops
+        return [loops[0], st, loops[1]]
+
     def where(self):
         """WHERE whose mask and assignments all use the range of an explicit loop over l (the class in which Loki is right)"""
         r = self.rng
@@ -645,24 +682,30 @@ class Gen:
         """1-3 statement groups; a section whose range happens to equal the range of an explicit loop elsewhere in the body
         (Loki would then silently reuse that loop's variable) is only generated on purpose (reuse / where groups)"""
         r = self.rng
+        def loop_keys(ss):
+            ks = set()
+            for s in ss:
+                if s[0] == 'vdo': ks.add(json.dumps([s[2], s[3], s[4]])); ks |= loop_keys(s[5])
+            return ks
         while True:
-            free, out = [], []
+            free, out, groups = [], [], []
             if r.random() < 0.3: out.append(['plain', ['assign', 'k', lit(r.randint(1, 3))]])
             for _ in range(r.choice([1, 1, 2, 3])):
                 c = r.random()
-                if c < 0.35: s = self.assign1d(); out.append(s); free.append(s)
-                elif c < 0.55: s = self.assign2d(); out.append(s); free.append(s)
-                elif c < 0.64: s = self.whole(); out.append(s); free.append(s)
-                elif c < 0.7: s = self.partial(); out.append(s); free.append(s)
-                elif c < 0.8: s = self.in_loop(); out.append(s); free.append(s[5][0])
-                elif c < 0.9: out += self.reuse()
-                else: out += self.where()
-            loops = set()
-            def walk(ss):
-                for s in ss:
-                    if s[0] == 'vdo': loops.add(json.dumps([s[2], s[3], s[4]])); walk(s[5])
-            walk(out)
-            if not any(k in loops for s in free for k in self.lhs_ranges(s)):
+                if c < 0.35: g = [self.assign1d()]; free += g
+                elif c < 0.55: g = [self.assign2d()]; free += g
+                elif c < 0.64: g = [self.whole()]; free += g
+                elif c < 0.7: g = [self.partial()]; free += g
+                elif c < 0.78: g = [self.in_loop()]; free.append(g[0][5][0])
+                elif c < 0.86: g = self.reuse()
+                elif c < 0.93: g = self.reuse2d()
+                else: g = self.where()
+                out += g; groups.append(loop_keys(g))
+            loops = set().union(*groups) if groups else set()
+            # a range that is meant to match the loop(s) of its own group must not also be the range of a loop of another
+            # group (the LAST loop with an equal range wins in Loki's loop_map, and its variable may be live in the statement)
+            clash = any(groups[i] & groups[j] for i in range(len(groups)) for j in range(i + 1, len(groups)))
+            if not clash and not any(k in loops for s in free for k in self.lhs_ranges(s)):
                 return out
 
 # =============================================================================================== index-normalising functions
@@ -822,6 +865,15 @@ def gen_store_idx(u, seed):
     return st
 
 # =============================================================================================== the property
+def do_vars(ss):
+    """variables of the explicit DO loops of a (section) program"""
+    out = set()
+    for s in ss:
+        if s[0] in ('vdo', 'do'): out.add(s[1]); out |= do_vars(s[5])
+        elif s[0] in ('vif', 'if'): out |= do_vars(s[2]) | do_vars(s[3])
+        elif s[0] == 'plain': out |= do_vars([s[1]])
+    return out
+
 def cmp_stores(u, s1, s2, skip=()):
     """first difference between two final stores on the unit's scalars and declared array cells"""
     for x in u['scalars']:
@@ -833,11 +885,11 @@ def cmp_stores(u, s1, s2, skip=()):
             if c1.get(i, 0) != c2.get(i, 0): return 'array %s%r: %r vs %r' % (a, tuple(i), c1.get(i, 0), c2.get(i, 0))
     return None
 
-def gf_compare(u, src1, src2, store):
+def gf_compare(u, src1, src2, store, skip=()):
     """compile & run original and transformed text on the same store; None if equal, else a description"""
     b = bounds_in(u, store)
     uu = dict(u); uu['arrays'] = {a: [[l, h] for l, h in b[a]] for a in u['arrays']}
-    spec = ([x for x in u['scalars']], [(a, list(i)) for a in sorted(u['arrays']) for i in sorted(store[a])])
+    spec = ([x for x in u['scalars'] if x not in skip], [(a, list(i)) for a in sorted(u['arrays']) for i in sorted(store[a])])
     main = M.main_program(uu, store, spec)
     ok1, o1 = M.gfortran_run([src1], main)
     if not ok1: return None if 'run:' in o1 else 'gfortran rejects the ORIGINAL (harness): ' + o1[-300:]
@@ -961,17 +1013,18 @@ class C30(Property):
             res = out['result']
             if 'error' in res: return 'resolve_vector_notation raised %s' % res['error']
             if 'malformed' in res: return 'resolve_vector_notation output is malformed: %s' % res['malformed']
+            dv = do_vars(out['parsed'])     # values of DO variables after the routine are not observed (array contents and all other scalars are)
             for seed in case['seeds']:
                 st = gen_store(u, seed)
                 try: ref = v_interp(out['parsed'], copy.deepcopy(st), ds)
                 except M.Stuck: continue
                 try: got = M.interp(res['stmts'], copy.deepcopy(st))
                 except M.Stuck as e: return 'transformed routine gets stuck (%s) where the original runs (store seed %d)' % (e, seed)
-                d = cmp_stores(u, ref, got)
+                d = cmp_stores(u, ref, got, skip=dv)
                 if d: return 'original vs resolved differ on store seed %d: %s' % (seed, d)
             if case.get('gf') and out.get('fgen'):
                 st = gen_store(u, case['seeds'][0])
-                d = gf_compare(u, vunit_to_fortran(u), out['fgen'], st)
+                d = gf_compare(u, vunit_to_fortran(u), out['fgen'], st, skip=dv)
                 if d: return d
             return None
         if case['kind'] == 'index':
